@@ -11,6 +11,21 @@ BASE_NOTE = ("Trusted base: rustc front end/MIR construction as dumped by engine
              "crates assumed total. ")
 
 CLAIMS = {
+    "C06": dict(
+        category="other",
+        technique="panic-site enumeration over MIR + abstract interpretation of translator, loader and display code on exhaustively enumerated abstract AST shapes; cross-stage key-normalisation data-flow",
+        text=("Every assert terminator and panicking call reachable from Translator::compile, ByteCode::bytes, Machine::load/"
+              "new_with_program, the TUI's program pane and the Display impls of the AST is an obligation. The entry points are "
+              "interpreted abstractly on every Instruction variant with every operand shape the ADTs admit (2127 shapes; numeric "
+              "payloads, the address counter, the label table and the image size unknown). The label look-ups are discharged by "
+              "the cross-stage argument: the parser validated every reference, and definition, look-up and validation normalise "
+              "names identically (data-flow through to_lowercase at every HashMap::insert/get)."),
+        note=("Known findings (8 keys, all genuine crash paths for parser-accepted text that need an error channel compile() does "
+              "not have): backward .ORG (deliberate panic), and images above 255/240 bytes (u8 address counter, unchecked RAM "
+              "index, debug assertion, TUI line ranges). Two defects were fixed (label case, DEC with memory operand). "
+              "Not decided: stack exhaustion, allocation failure, panics inside dependencies; .DB/.DW payload lengths are "
+              "represented by 1, 2, 3 and 40 elements."),
+        design="3/C06"),
     "C03": dict(
         category="other",
         technique="abstract interpretation of the parse-tree consumers against the grammar's child language (abstract pest API); PEG analysis of the grammar file; lexical class enumeration",
